@@ -12,15 +12,21 @@ Notation wfz := (wf_sp zisz).
 Definition nonneg_spt (t : sptz) : Prop :=
   (forall row, In row (spt_subs t) -> forall s, In s row -> (0 <= s)%Z) /\ (forall d, In d (spt_shape t) -> (0 <= d)%Z).
 
-(* sptensor.permute, generated: two stored orders of one tensor (with stored entries), the same admissible order of the modes *)
-Theorem gen_permute_indep (self self' t t' : sptz) (order : vec) :
+(* since /repo 9c8fdd5 the generated method carries the dtype of `order` as a tag (order.dtype == bool): a boolean order is refused *)
+Lemma gen_permute_bool_rejected (self : sptz) (order : vec) : sptensor_permute self order true = Err.
+Proof. reflexivity. Qed.
+
+(* sptensor.permute, generated: two stored orders of one tensor (with stored entries), the same admissible order of the modes (of either
+   dtype tag: an accepted request has an integer order) *)
+Theorem gen_permute_indep (self self' t t' : sptz) (order : vec) (isbool : bool) :
   nonneg_spt self -> nonneg_spt self' -> np_size2 (spt_subs self) <> 0%Z -> np_size2 (spt_subs self') <> 0%Z ->
   wfz (to_Sp self) -> wfz (to_Sp self') -> sshape (to_Sp self') = sshape (to_Sp self) ->
   Permutation (entries (to_Sp self)) (entries (to_Sp self')) ->
-  sptensor_permute self order = Ok t -> sptensor_permute self' order = Ok t' ->
+  sptensor_permute self order isbool = Ok t -> sptensor_permute self' order isbool = Ok t' ->
   same_result 0%Z zisz (to_Sp t) (to_Sp t').
 Proof.
   intros (N1 & N2) (N1' & N2') Hz Hz' W W' Hs P E E'.
+  destruct isbool; [rewrite gen_permute_bool_rejected in E; discriminate|].
   destruct (gen_sp_permute_model self t order N1 N2 Hz E) as (Hp & M).
   destruct (gen_sp_permute_model self' t' order N1' N2' Hz' E') as (_ & M').
   assert (HL : length (sshape (to_Sp self)) = length (spt_shape self)) by (unfold to_Sp, nats; cbn [sshape]; apply map_length).
